@@ -70,6 +70,7 @@ fn main() {
             "C02" => monitors::c02::replay(&args, &case, &mut rep),
             "C03" => monitors::c03::replay(&args, &case, &mut rep),
             "C05" => monitors::c05::replay(&case, &mut rep),
+            "C08" => monitors::c08::replay(&args, &case, &mut rep),
             "C10" => monitors::c10::replay(&case, &mut rep),
             "C14" => monitors::c14::replay(&case, &mut rep),
             "C15" => monitors::c15::replay(&case, &mut rep),
@@ -83,6 +84,7 @@ fn main() {
             "C02" => monitors::c02::run(&args, &mut rep),
             "C03" => monitors::c03::run(&args, &mut rep),
             "C05" => monitors::c05::run(&args, &mut rep),
+            "C08" => monitors::c08::run(&args, &mut rep),
             "C10" => monitors::c10::run(&args, &mut rep),
             "C14" => monitors::c14::run(&args, &mut rep),
             "C15" => monitors::c15::run(&args, &mut rep),
